@@ -410,7 +410,7 @@ KNOWN = {
 }
 
 
-def render_nested(bodies, splits):
+def render_nested(bodies, splits, params=None):
     """def main(...): <body 0 with `def inner1():` placed before statement splits[0]>, whose body is
     body 1 with `def inner2():` placed before statement splits[1], ...  Returns (source, reads, binds)."""
     import re
@@ -422,7 +422,8 @@ def render_nested(bodies, splits):
         if k + 1 < len(bodies):
             j = splits[k]
             r.body(body[:j], ind)
-            r.emit(ind, 'def inner%d():' % (k + 1))
+            ps = (params or {}).get(k + 1, [])
+            r.emit(ind, 'def inner%d(%s):' % (k + 1, ', '.join(pygen.mk('d', d, x) + '=g()' for d, x in ps)))
             level(k + 1, ind + 1)
             r.body(body[j:], ind)
         else:
@@ -444,14 +445,15 @@ def render_nested(bodies, splits):
     return '\n'.join(out) + '\n', reads, binds
 
 
-def render_nested_instrumented(bodies, splits):
+def render_nested_instrumented(bodies, splits, params=None):
     """the same chain for CPython: every function defines the next one before statement splits[k] of
     its body and calls it as its last statement (bodies are already cut at the call point)"""
     r = pygen.Renderer(True)
 
     def level(k, ind):
         body = bodies[k]
-        r.emit(ind - 1, 'def %s():' % ('main' if k == 0 else 'inner%d' % k))
+        ps = (params or {}).get(k, [])
+        r.emit(ind - 1, 'def %s(%s):' % ('main' if k == 0 else 'inner%d' % k, ', '.join('%s=%s' % (x, r.tagged([(d, x)], [])) for d, x in ps)))
         if k + 1 < len(bodies):
             j = splits[k]
             r.body(body[:j], ind)
@@ -500,16 +502,20 @@ def part_d(ctx):
         depth = ctx.rng.choice([2, 2, 3, 3, 4])
         names = ctx.rng.choice([pygen.POOL[:3], pygen.POOL[:4], pygen.POOL])
         g = pygen.Gen(ctx.rng, allow_return=True, exits=True, max_stmts=6, names=names)
-        bodies, ranges = [], []
-        for _ in range(depth):
+        bodies, ranges, params = [], [], {}
+        for lvl_ in range(depth):
             lo = g.site
+            if lvl_ > 0:
+                # parameters (with defaults) of the nested function: bound at entry, before the body
+                pn = ctx.rng.sample(names, ctx.rng.choice([0, 0, 1, 2]))
+                params[lvl_] = [(g.new(), x) for x in pn]
             g.budget = g.max_stmts
             g.loop_depth = 0
             bodies.append(g.program(lo=2, hi=4, prologue=ctx.rng.choice([0.2, 0.5])))
             ranges.append((lo, g.site))
         splits = [ctx.rng.randrange(0, len(b)) for b in bodies]
         try:
-            src, reads, binds = render_nested(bodies, splits)
+            src, reads, binds = render_nested(bodies, splits, params)
             obs = rc.observe_supp(ctx, src, reads, binds)
         except Exception as e:
             ctx.violation('supp raised %s: %s on a generated chain of nested functions' % (type(e).__name__, e),
@@ -520,6 +526,8 @@ def part_d(ctx):
             ctx.violation('supp lists a definition that is no binding site of the program: %r' % (obs['unknown_alt'][:2],),
                           {'kind': 'direct-D', 'source': src})
             continue
+        passign = {i: [('assign', [], [(d_, x_)], 'plain') for d_, x_ in params.get(i, [])] for i in range(depth)}
+        mcoq = lambda i, b: pygen.body_coq(passign[i] + b)      # model body: parameters are bindings at the head
         for lvl in range(depth):
             lo, hi = ranges[lvl]
             items = []
@@ -534,14 +542,14 @@ def part_d(ctx):
             free = any(lo < s_ <= hi and any(a is not None and not (lo < a <= hi) for a in (obs['seen'][s_] if obs['seen'][s_] != 'E42' else []))
                        for s_ in obs['seen'])
             ctx.count(('D', src, lvl), nontrivial=free)
-            terms.append('([%s], %s, [%s], [%s])' % ('; '.join(pygen.body_coq(b) for b in bodies[:lvl]), pygen.body_coq(bodies[lvl]),
+            terms.append('([%s], %s, [%s], [%s])' % ('; '.join(mcoq(i, b) for i, b in enumerate(bodies[:lvl])), mcoq(lvl, bodies[lvl]),
                                                     '; '.join(items), '; '.join(str(x) for x in e02s)))
             meta.append((src, lvl, bodies, splits))
         # (R): cut every body at a call point behind the nested def, run under CPython
         cuts = [ctx.rng.randint(splits[i], len(bodies[i])) for i in range(depth)]
-        tbodies = [bodies[i][:cuts[i]] or [('pass',)] for i in range(depth)]
+        tbodies = [bodies[i][:cuts[i]] for i in range(depth)]
         tsplits = [min(splits[i], len(tbodies[i])) for i in range(depth)]
-        code = render_nested_instrumented(tbodies, tsplits)
+        code = render_nested_instrumented(tbodies, tsplits, params)
         try:
             runs, _ex = rc.enumerate_decisions(rc.Oracle(code, 'func', cont=True), cap)
         except SyntaxError as e:
@@ -553,7 +561,7 @@ def part_d(ctx):
                 continue
             inner_ok = sum(1 for r_, v in log if v is not None and r_ > ranges[0][1])
             ctx.count(('Dr', code, tuple(eff)), nontrivial=inner_ok > 0)
-            rterms.append('([%s], [%s], [%s])' % ('; '.join(pygen.body_coq(b) for b in tbodies), '; '.join('%d%%nat' % d for d in eff),
+            rterms.append('([%s], [%s], [%s])' % ('; '.join(mcoq(i, b) for i, b in enumerate(tbodies)), '; '.join('%d%%nat' % d for d in eff),
                                                  '; '.join('(%d, %s)' % (r_, rc.alt_term(v)) for r_, v in log)))
             rmeta.append((code, eff, log))
         if k < 1:
